@@ -1,3 +1,5 @@
+pub mod lex;
+pub mod lexrec;
 pub mod table;
 
 use crate::Verdict;
@@ -6,6 +8,8 @@ use serde_json::Value as J;
 pub fn check(family: &str, rec: &J) -> Verdict {
     match family {
         "table" => table::check(rec),
+        "lex" => lex::check_lex(rec),
+        "total" => lex::check_total(rec),
         _ => Verdict {
             st: "toolerr",
             nontrivial: false,
@@ -15,7 +19,13 @@ pub fn check(family: &str, rec: &J) -> Verdict {
     }
 }
 
-pub fn record(family: &str, _args: &[String]) -> i32 {
-    eprintln!("no recorder for family {}", family);
-    2
+pub fn record(family: &str, args: &[String]) -> i32 {
+    std::panic::set_hook(Box::new(|_| {}));
+    match family {
+        "lex" => lexrec::record(args),
+        _ => {
+            eprintln!("no recorder for family {}", family);
+            2
+        }
+    }
 }
